@@ -224,6 +224,74 @@ func (rep *Report) modelArg(p *ssa.Parameter, name string, vals map[string]*sx) 
 		lit := fmt.Sprintf("%s{%s}", types.TypeString(t, qualifierShort), strings.Join(elems, ", "))
 		return replayArg{goExpr: lit, val: vs, shown: lit}, true
 	}
+	if a, ok := rep.compositeArg(p.Parent().Pkg.Pkg, t, name, vals); ok {
+		return a, true
+	}
+	return replayArg{}, false
+}
+
+// compositeArg rebuilds a value struct / fixed-size array argument (floats and integers at the leaves, types of the
+// function's own package) from the model values of its projections.
+func (rep *Report) compositeArg(pkg *types.Package, t types.Type, term string, vals map[string]*sx) (replayArg, bool) {
+	tn := types.TypeString(t, types.RelativeTo(pkg))
+	if strings.Contains(tn, ".") {
+		return replayArg{}, false // a type of another package: the in-package replay test would need an import
+	}
+	switch u := t.Underlying().(type) {
+	case *types.Basic:
+		x, ok := vals[term]
+		if !ok {
+			return replayArg{}, false
+		}
+		switch {
+		case u.Info()&types.IsFloat != 0:
+			r, ok := sxRat(x)
+			if !ok {
+				return replayArg{}, false
+			}
+			fl, _ := r.Float64()
+			exact := new(big.Rat)
+			exact.SetFloat64(fl)
+			return replayArg{goExpr: fmt.Sprintf("math.Float64frombits(0x%x)", math.Float64bits(fl)), val: exact, shown: fmt.Sprintf("%v", fl)}, true
+		case u.Info()&types.IsInteger != 0:
+			n, ok := sxInt(x)
+			if !ok {
+				return replayArg{}, false
+			}
+			return replayArg{goExpr: fmt.Sprintf("%s(%s)", tn, n.String()), val: n, shown: n.String()}, true
+		}
+		return replayArg{}, false
+	case *types.Struct:
+		ss := rep.VC.structSortOf(t, u)
+		m := map[string]Value{}
+		var parts, shown []string
+		for i := 0; i < u.NumFields(); i++ {
+			a, ok := rep.compositeArg(pkg, u.Field(i).Type(), fmt.Sprintf("(%s.%s %s)", ss.Name, u.Field(i).Name(), term), vals)
+			if !ok {
+				return replayArg{}, false
+			}
+			m[u.Field(i).Name()] = a.val
+			parts = append(parts, u.Field(i).Name()+": "+a.goExpr)
+			shown = append(shown, u.Field(i).Name()+":"+a.shown)
+		}
+		return replayArg{goExpr: tn + "{" + strings.Join(parts, ", ") + "}", val: m, shown: tn + "{" + strings.Join(shown, " ") + "}"}, true
+	case *types.Array:
+		if u.Len() > 4 {
+			return replayArg{}, false
+		}
+		var vs []Value
+		var parts, shown []string
+		for i := int64(0); i < u.Len(); i++ {
+			a, ok := rep.compositeArg(pkg, u.Elem(), fmt.Sprintf("(select %s %d)", term, i), vals)
+			if !ok {
+				return replayArg{}, false
+			}
+			vs = append(vs, a.val)
+			parts = append(parts, a.goExpr)
+			shown = append(shown, a.shown)
+		}
+		return replayArg{goExpr: tn + "{" + strings.Join(parts, ", ") + "}", val: vs, shown: "[" + strings.Join(shown, " ") + "]"}, true
+	}
 	return replayArg{}, false
 }
 
@@ -258,8 +326,14 @@ func (vc *VC) runRealCases(fn *ssa.Function, cases [][]string) []*RealResult {
 	}
 	res := out[0]
 	dir, ok := vc.dirOf(fn)
-	if !ok || fn.Signature.Recv() != nil {
-		return fail("not replayable: method or external function")
+	if !ok {
+		return fail("not replayable: external function")
+	}
+	isMethod := fn.Signature.Recv() != nil
+	if isMethod {
+		if _, ptr := fn.Signature.Recv().Type().(*types.Pointer); ptr {
+			return fail("not replayable: method with pointer receiver")
+		}
 	}
 	pkgName := fn.Pkg.Pkg.Name()
 	name := fn.Name()
@@ -270,6 +344,7 @@ func (vc *VC) runRealCases(fn *ssa.Function, cases [][]string) []*RealResult {
 	var lhs []string
 	var prints []string
 	imports := map[string]bool{"fmt": true, "testing": true}
+	needDump := false
 	for i := 0; i < rs.Len(); i++ {
 		v := fmt.Sprintf("r%d", i)
 		lhs = append(lhs, v)
@@ -300,6 +375,12 @@ func (vc *VC) runRealCases(fn *ssa.Function, cases [][]string) []*RealResult {
 				} else {
 					prints = append(prints, fmt.Sprintf("_ = %s; fmt.Printf(\"GOVC-R %d other\\n\")", v, i))
 				}
+			case *types.Struct, *types.Array:
+				imports["reflect"] = true
+				imports["math"] = true
+				imports["strings"] = true
+				needDump = true
+				prints = append(prints, fmt.Sprintf("fmt.Printf(\"GOVC-R %d json %%s\\n\", govcDump(reflect.ValueOf(%s)))", i, v))
 			default:
 				prints = append(prints, fmt.Sprintf("_ = %s; fmt.Printf(\"GOVC-R %d other\\n\")", v, i))
 			}
@@ -322,6 +403,9 @@ func (vc *VC) runRealCases(fn *ssa.Function, cases [][]string) []*RealResult {
 		fmt.Fprintf(&sb, "\tfunc() {\n\t\tfmt.Println(\"GOVC-CASE %d\")\n", ci)
 		sb.WriteString("\t\tdefer func() {\n\t\t\tif r := recover(); r != nil {\n\t\t\t\tfmt.Printf(\"GOVC-PANIC %v\\n\", r)\n\t\t\t}\n\t\t}()\n")
 		call := fmt.Sprintf("%s(%s)", name, strings.Join(argExprs, ", "))
+		if isMethod && len(argExprs) > 0 {
+			call = fmt.Sprintf("(%s).%s(%s)", argExprs[0], name, strings.Join(argExprs[1:], ", "))
+		}
 		if len(lhs) > 0 {
 			fmt.Fprintf(&sb, "\t\t%s := %s\n", strings.Join(lhs, ", "), call)
 		} else {
@@ -333,6 +417,9 @@ func (vc *VC) runRealCases(fn *ssa.Function, cases [][]string) []*RealResult {
 		sb.WriteString("\t\tfmt.Println(\"GOVC-DONE\")\n\t}()\n")
 	}
 	sb.WriteString("}\n")
+	if needDump {
+		sb.WriteString(govcDumpSrc)
+	}
 	testSrc := sb.String()
 	if len(cases) == 1 {
 		res.Test = testSrc
@@ -421,6 +508,13 @@ func (vc *VC) runRealCases(fn *ssa.Function, cases [][]string) []*RealResult {
 				var s string
 				fmt.Sscanf(payload, "%q", &s)
 				res.Results[idx] = s
+			case "json":
+				var rawv interface{}
+				dec := json.NewDecoder(strings.NewReader(payload))
+				dec.UseNumber()
+				if err := dec.Decode(&rawv); err == nil {
+					res.Results[idx] = dumpToValue(rawv)
+				}
 			case "list":
 				var raw []interface{}
 				dec := json.NewDecoder(strings.NewReader(payload))
@@ -960,4 +1054,77 @@ func splitTopLevel(s string) []string {
 		out = append(out, s[start:])
 	}
 	return out
+}
+
+// govcDumpSrc is appended to a replay test whose function returns a struct or array: a reflective printer that
+// writes floats as their IEEE bit patterns (no rounding through decimal text).
+const govcDumpSrc = `
+func govcDump(v reflect.Value) string {
+	switch v.Kind() {
+	case reflect.Float64, reflect.Float32:
+		return fmt.Sprintf("{\"f\":\"%d\"}", math.Float64bits(v.Float()))
+	case reflect.Int, reflect.Int8, reflect.Int16, reflect.Int32, reflect.Int64:
+		return fmt.Sprintf("{\"i\":\"%d\"}", v.Int())
+	case reflect.Bool:
+		return fmt.Sprintf("{\"b\":%v}", v.Bool())
+	case reflect.String:
+		return fmt.Sprintf("{\"t\":%q}", v.String())
+	case reflect.Struct:
+		var parts []string
+		for i := 0; i < v.NumField(); i++ {
+			parts = append(parts, fmt.Sprintf("%q:%s", v.Type().Field(i).Name, govcDump(v.Field(i))))
+		}
+		return "{\"s\":{" + strings.Join(parts, ",") + "}}"
+	case reflect.Array, reflect.Slice:
+		var parts []string
+		for i := 0; i < v.Len(); i++ {
+			parts = append(parts, govcDump(v.Index(i)))
+		}
+		return "{\"a\":[" + strings.Join(parts, ",") + "]}"
+	}
+	return "{\"o\":null}"
+}
+`
+
+func dumpToValue(x interface{}) Value {
+	m, ok := x.(map[string]interface{})
+	if !ok {
+		return nil
+	}
+	if f, ok := m["f"].(string); ok {
+		var bits uint64
+		fmt.Sscanf(f, "%d", &bits)
+		fl := math.Float64frombits(bits)
+		if math.IsNaN(fl) || math.IsInf(fl, 0) {
+			return nil
+		}
+		r := new(big.Rat)
+		r.SetFloat64(fl)
+		return r
+	}
+	if i, ok := m["i"].(string); ok {
+		n, _ := new(big.Int).SetString(i, 10)
+		return n
+	}
+	if b, ok := m["b"].(bool); ok {
+		return b
+	}
+	if t, ok := m["t"].(string); ok {
+		return t
+	}
+	if st, ok := m["s"].(map[string]interface{}); ok {
+		out := map[string]Value{}
+		for k, v := range st {
+			out[k] = dumpToValue(v)
+		}
+		return out
+	}
+	if a, ok := m["a"].([]interface{}); ok {
+		out := []Value{}
+		for _, v := range a {
+			out = append(out, dumpToValue(v))
+		}
+		return out
+	}
+	return nil
 }
